@@ -62,6 +62,10 @@ fn main() {
             emit::write_all(u("seed", 1), kv.get("out").expect("out=<dir>"), u("files", 2) as usize, u("cases", 10) as usize, u("negs", 10) as usize, bits).expect("write");
             println!("emitted");
         }
+        Some("bare") => {
+            emit::write_bare(u("seed", 1), kv.get("out").expect("out=<dir>"), u("files", 2) as usize, u("cases", 10) as usize).expect("write");
+            println!("emitted");
+        }
         Some("noop") => {
             println!("{{\"workload\":\"noop\",\"argv\":[],\"steps\":0,\"counters\":{{}},\"distinct\":{{}},\"samples\":[],\"violation\":null}}");
         }
